@@ -340,6 +340,7 @@ def run_to_completion(state: State, external_event: Union[dict, Event]) -> State
                 heads_matching: List[FlowHead] = []
                 heads_not_matching: List[FlowHead] = []
                 heads_failing: List[FlowHead] = []
+                heads_with_error: List[FlowHead] = []
 
                 # Iterate over all potential head candidates and check if we have an event match
                 for flow_state_uid, head_uid in head_candidates:
@@ -347,9 +348,21 @@ def run_to_completion(state: State, external_event: Union[dict, Event]) -> State
                     head = flow_state.heads[head_uid]
                     element = get_element_from_head(state, head)
                     if element is not None and is_match_op_element(element):
-                        matching_score = _compute_event_matching_score(
-                            state, flow_state, head, event
-                        )
+                        try:
+                            matching_score = _compute_event_matching_score(
+                                state, flow_state, head, event
+                            )
+                        except Exception as e:
+                            # A runtime error in the match statement of a flow must only
+                            # fail that flow and not the processing of the event
+                            _push_internal_event(
+                                state,
+                                _create_colang_error_event(
+                                    state, flow_state, element, e
+                                ),
+                            )
+                            heads_with_error.append(head)
+                            continue
 
                         if matching_score > 0.0:
                             # Successful event match
@@ -405,6 +418,17 @@ def run_to_completion(state: State, external_event: Union[dict, Event]) -> State
                 if isinstance(event, ActionEvent):
                     # Update actions status in all active flows by current action event
                     _update_action_status_by_event(state, event)
+
+                # Abort all flows with a runtime error in the match statement
+                for head in heads_with_error:
+                    flow_state = get_flow_state_from_head(state, head)
+                    if is_listening_flow(flow_state):
+                        _abort_flow(
+                            state,
+                            flow_state,
+                            [],
+                            restart_flow=flow_state.status == FlowStatus.STARTED,
+                        )
 
                 # Abort all flows with a mismatch
                 for head in heads_failing:
@@ -954,8 +978,6 @@ def _advance_head_front(state: State, heads: List[FlowHead]) -> List[FlowHead]:
             # We only advance merging heads if all internal events were processed
             actionable_heads.append(head)
             continue
-        elif head.status == FlowHeadStatus.ACTIVE:
-            head.position += 1
 
         if flow_state.status == FlowStatus.WAITING:
             flow_state.status = FlowStatus.STARTING
@@ -966,6 +988,10 @@ def _advance_head_front(state: State, heads: List[FlowHead]) -> List[FlowHead]:
         flow_finished = False
         flow_aborted = False
         try:
+            # Note: A head position update can raise a runtime error too (invalid event reference)
+            if head.status == FlowHeadStatus.ACTIVE:
+                head.position += 1
+
             new_heads = slide(state, flow_state, flow_config, head)
 
             # Advance all new heads created by a head fork
@@ -1014,24 +1040,9 @@ def _advance_head_front(state: State, heads: List[FlowHead]) -> List[FlowHead]:
                     actionable_heads.append(head)
         except Exception as e:
             # In case there were any runtime error the flow will be aborted (fail)
-            source_line = "unknown"
-            element = flow_config.elements[head.position]
-            if hasattr(element, "_source") and element._source:
-                source_line = str(element._source.line)
-            log.warning(
-                "Flow '%s' failed on line %s (%s) due to Colang runtime exception: %s",
-                flow_state.flow_id,
-                source_line,
-                flow_config.source_file,
-                e,
-                exc_info=True,
-            )
-            colang_error_event = Event(
-                name="ColangError",
-                arguments={
-                    "type": str(type(e).__name__),
-                    "error": str(e),
-                },
+            element = get_element_from_head(state, head)
+            colang_error_event = _create_colang_error_event(
+                state, flow_state, element, e
             )
             _push_internal_event(state, colang_error_event)
             flow_aborted = True
@@ -1058,6 +1069,33 @@ def _advance_head_front(state: State, heads: List[FlowHead]) -> List[FlowHead]:
     ]
 
     return actionable_heads
+
+
+def _create_colang_error_event(
+    state: State,
+    flow_state: FlowState,
+    element: Optional[ElementType],
+    exception: Exception,
+) -> Event:
+    """Log a runtime error of a flow and create the related ColangError event."""
+    source_line = "unknown"
+    if hasattr(element, "_source") and element._source:
+        source_line = str(element._source.line)
+    log.warning(
+        "Flow '%s' failed on line %s (%s) due to Colang runtime exception: %s",
+        flow_state.flow_id,
+        source_line,
+        state.flow_configs[flow_state.flow_id].source_file,
+        exception,
+        exc_info=True,
+    )
+    return Event(
+        name="ColangError",
+        arguments={
+            "type": str(type(exception).__name__),
+            "error": str(exception),
+        },
+    )
 
 
 def slide(
